@@ -1,4 +1,5 @@
 import Sop.Lemmas.OccSerial
+import Sop.Model.OccFresh
 /-!
 # C05 — a unique-key store never ends up with two items under the same key (Model L)
 
@@ -176,19 +177,6 @@ theorem nodup_run {db0 : Nat → Option Entry} : ∀ (sched : List (Nat × List 
     exact ih _ (inv_step s.1 s.2 inv hc hs hk hb) hrest hu.2 (nodup_step s.1 s.2 inv hs hk hu.1 hn)
 
 /-! ## `GoodU` as a decidable check over a finite item universe -/
-
-/-- `InstallFresh` with the quantifier over committed items bounded by `items`, plus: every write lands in `items` -/
-def InstallFreshN (items : List Nat) (g : G) (i : Nat) : Prop :=
-  (g.txns i).pc = .install →
-    ((((g.txns i).tracked.filter (·.writes)).map (·.item)).Nodup) ∧
-    (∀ w ∈ (g.txns i).tracked.filter (·.writes), w.act = .add → g.db w.item = none) ∧
-    (∀ w ∈ (g.txns i).tracked.filter (·.writes), w.act = .add → ∀ j ∈ items, ∀ e ∈ g.db j, e.key = w.ent.key →
-      ∃ w' ∈ (g.txns i).tracked.filter (·.writes), w'.act = .remove ∧ w'.item = j) ∧
-    (∀ w ∈ (g.txns i).tracked.filter (·.writes), w.act = .add → ∀ w' ∈ (g.txns i).tracked.filter (·.writes), w'.act = .add →
-      w'.ent.key = w.ent.key → w'.item = w.item) ∧
-    (∀ w ∈ (g.txns i).tracked.filter (·.writes), w.item ∈ items)
-
-instance (items : List Nat) (g : G) (i : Nat) : Decidable (InstallFreshN items g i) := by unfold InstallFreshN; infer_instance
 
 def GoodUN (items : List Nat) : G → List (Nat × List Nat) → Prop
   | _, [] => True
